@@ -191,9 +191,9 @@ func c16Collapse(c *Ctx) {
 		c.Fail("COLLAPSE-GUARD", "writeBufYAMLFile", token.NoPos, "not found")
 		return
 	}
-	info := fr.Info()
 	found := false
-	ast.Inspect(fr.Decl.Body, func(n ast.Node) bool {
+	// the collapse may live in writeBufYAMLFile or in a helper of the package it calls
+	deepInspect(p, fr, 2, func(n ast.Node, info *types.Info) bool {
 		ifs, ok := n.(*ast.IfStmt)
 		if !ok {
 			return true
@@ -226,19 +226,53 @@ func c16Collapse(c *Ctx) {
 		}
 		found = true
 		tstr := exprString(target)
+		ownerName := namedName(info.TypeOf(target.X))
+		listField := target.Sel.Name
+		encl := p.EnclosingFuncDecl(ifs)
+		// aliases of the first element: `m := X.Modules[0]`
+		aliases := map[string]bool{tstr + "[0]": true}
+		if encl != nil {
+			ast.Inspect(encl.Body, func(m ast.Node) bool {
+				if as, ok := m.(*ast.AssignStmt); ok && len(as.Lhs) == 1 && len(as.Rhs) == 1 && exprString(as.Rhs[0]) == tstr+"[0]" {
+					if id, ok := as.Lhs[0].(*ast.Ident); ok {
+						aliases[id.Name] = true
+					}
+				}
+				return true
+			})
+		}
+		mentions := func(e ast.Node, f string) bool {
+			hit := false
+			ast.Inspect(e, func(m ast.Node) bool {
+				if se, ok := m.(*ast.SelectorExpr); ok && se.Sel.Name == f && aliases[exprString(se.X)] {
+					hit = true
+				}
+				return true
+			})
+			return hit
+		}
+		// conditions that guard the collapse: the if itself and every enclosing if of the same function
+		var guards []ast.Expr
+		guards = append(guards, ifs.Cond)
+		for q := p.Parent(ifs); q != nil && encl != nil && q != ast.Node(encl); q = p.Parent(q) {
+			if oi, ok := q.(*ast.IfStmt); ok {
+				guards = append(guards, oi.Cond)
+			}
+		}
 		for i := 0; i < elem.NumFields(); i++ {
 			f := elem.Field(i).Name()
-			elemRef := tstr + "[0]." + f
 			how := ""
-			if strings.Contains(exprString(ifs.Cond), elemRef) {
-				how = "tested in the guard"
+			for _, gd := range guards {
+				if mentions(gd, f) {
+					how = "tested in the guard"
+				}
 			}
 			if how == "" {
 				// hoisted in the branch: some assignment's right-hand side mentions Modules[0].F
 				for _, st := range ifs.Body.List {
 					if as, ok := st.(*ast.AssignStmt); ok {
 						for _, r := range as.Rhs {
-							if strings.Contains(exprString(r), elemRef) {
+							if mentions(r, f) {
 								how = "hoisted to the top level in the branch"
 							}
 						}
@@ -246,22 +280,32 @@ func c16Collapse(c *Ctx) {
 				}
 			}
 			if how == "" {
-				// zeroed for every element earlier and hoisted under the like-named top-level field
+				// zeroed for every element and hoisted under the like-named top-level field, earlier in the same function
+				// or in a helper of the writer (matched by the owner type and field names, not by variable names)
 				zeroed, hoisted := false, false
-				base := exprString(target.X)
-				ast.Inspect(fr.Decl.Body, func(m ast.Node) bool {
+				deepInspect(p, fr, 2, func(m ast.Node, minfo *types.Info) bool {
 					as, ok := m.(*ast.AssignStmt)
-					if !ok || as.Pos() > ifs.Pos() || len(as.Lhs) != 1 {
+					if !ok || len(as.Lhs) != 1 || len(as.Rhs) != 1 {
 						return true
 					}
-					l := exprString(as.Lhs[0])
-					if strings.HasPrefix(l, tstr+"[") && strings.HasSuffix(l, "]."+f) {
-						if cl, ok := as.Rhs[0].(*ast.CompositeLit); ok && len(cl.Elts) == 0 {
-							zeroed = true
-						}
+					if p.EnclosingFuncDecl(as) == encl && as.Pos() > ifs.Pos() {
+						return true
 					}
-					if l == base+"."+f {
-						hoisted = true
+					se, ok := ast.Unparen(as.Lhs[0]).(*ast.SelectorExpr)
+					if !ok || se.Sel.Name != f {
+						return true
+					}
+					switch x := ast.Unparen(se.X).(type) {
+					case *ast.IndexExpr:
+						if ls, ok := ast.Unparen(x.X).(*ast.SelectorExpr); ok && ls.Sel.Name == listField && namedName(minfo.TypeOf(ls.X)) == ownerName {
+							if cl, ok := as.Rhs[0].(*ast.CompositeLit); ok && len(cl.Elts) == 0 {
+								zeroed = true
+							}
+						}
+					default:
+						if namedName(minfo.TypeOf(se.X)) == ownerName {
+							hoisted = true
+						}
 					}
 					return true
 				})
